@@ -404,6 +404,13 @@ def enum_facts(ctx, rid):
                     and "attr:name" in _attr_ops(c.args[1]) and "attr:children" in _attr_ops(c.args[1]) \
                     and "attr:id" not in _attr_ops(c.args[1]):
                 ok = _exc_name(o) == "ValueError"
+            # the same test as a scan: not any(child.name == value for child in <children>)
+            if isinstance(c, App) and c.op == "call:any" and not pol and len(c.args) == 1 and isinstance(c.args[0], App) and c.args[0].op in ("comp:gen", "comp:list") \
+                    and len(c.args[0].args) == 3 and not c.args[0].args[2].args and "attr:children" in _attr_ops(c.args[0].args[1]):
+                body_ = c.args[0].args[0]
+                if isinstance(body_, App) and body_.op == "==" and Sym("param:value") in body_.args and any(
+                        "attr:name" in _attr_ops(x_) and "attr:id" not in _attr_ops(x_) for x_ in body_.args if x_ != Sym("param:value")):
+                    ok = _exc_name(o) == "ValueError"
     R.check(rid, ok, "enum node rejects every name outside its own children list with ValueError", node=fi.node,
             function=ctx.fq(fi), mod=fi.module,
             expected="if value not in [i.name for i in self._metadata.children]: raise ValueError",
